@@ -105,6 +105,7 @@ func (e *Eng) obligations() {
 	e.poolPutOnce()
 	e.copyModePassed()
 	e.doneReportsTerminator()
+	e.ringOwnSlot()
 
 	// ---- C16: who reads Message
 	e.messageReaders()
